@@ -54,7 +54,15 @@ def main():
                     "lines": lines[:4]})
         print(name, verdict, by, [o["obligation"] for o in obs][:3], flush=True)
     shutil.rmtree(os.path.join(VERIF, "replays"), ignore_errors=True)
-    if not only:
+    if only:
+        # merge into the existing table
+        try:
+            prev = json.load(open(os.path.join(VERIF, "seeded", "RESULTS.json")))
+        except Exception:
+            prev = []
+        done = {r["seed"] for r in out}
+        out = sorted([r for r in prev if r["seed"] not in done] + out, key=lambda r: r["seed"])
+    if True:
         json.dump(out, open(os.path.join(VERIF, "seeded", "RESULTS.json"), "w"), indent=1, ensure_ascii=False)
         with open(os.path.join(VERIF, "seeded", "RESULTS.md"), "w") as f:
             f.write("| seed | check | verdict | decided by | failed obligation(s) | replayed failing input |\n|---|---|---|---|---|---|\n")
